@@ -235,4 +235,14 @@ PROPS = {
         essential={"grideval": {"grid:has_outside_points": 0.3, "grid:unsorted_or_repeated": 0.3, "grid:single_point_axis": 0.1, "via:C": 0.2, "interior_point:unlisted": 0.5, "interior_point:listed": 2.0}},
         assumptions=["magnitude of the summed terms from the reference evaluation (ref.hpp)"],
     ),
+    "C19": dict(
+        level="exploration",
+        level_text="Generated table files (independent writer; 1..6 dims, mixed orders 0..5, up to 1e5 coefficients, 0..50 auxiliary keys of all accepted lengths incl. maximal key+value) are loaded into splinetable<CheckedAlloc> from their path and optionally convolved exactly as declared to estimateMemory (2..8 kernel knots, any dimension). The allocator's ledger gives the peak number of bytes simultaneously requested, which must not exceed the estimate; the ledger must also balance (every block returned exactly once).",
+        level_note="Only requests made through the table's allocator are counted, as the property states (convolve's temporaries use operator new). A fixed-size arena's own bookkeeping overhead is outside the estimate's scope.",
+        technique="property-based testing (rapidcheck) with a byte-counting allocator as measurement oracle",
+        units=[U("c19_estimate", "c19_estimate.cpp", quick=2500, thorough=400000, names=["estimate_bounds_peak"])],
+        rule="Non-trivial: a convolution is requested, or >=10 auxiliary keys, or ndim>=3; distinct = hash(spec, aux count, kernel knots, dimension).",
+        essential={"estimate_bounds_peak": {"convolution:yes": 0.4, "aux>=10": 0.2, "coeffs:>=1e4": 0.006}},
+        assumptions=["sizeof(splinetable) is part of the estimate but not of the measured requests"],
+    ),
 }
